@@ -3,7 +3,7 @@ use core::any::TypeId;
 use core::mem::{size_of, MaybeUninit};
 use core::ptr::NonNull;
 use crate::AnyVec;
-use crate::any_value::{AnyValue, AnyValueCloneable, AnyValueRaw, AnyValueWrapper};
+use crate::any_value::{AnyValue, AnyValueCloneable, AnyValueRaw, AnyValueSizelessRaw, AnyValueWrapper};
 use crate::traits::{Cloneable, None};
 use super::ghost::*;
 use super::post;
@@ -13,6 +13,7 @@ use super::util::*;
 pub const SRC_RAW: usize = 0; // AnyValueRaw: statically unknown type, caller buffer
 pub const SRC_WRAPPER: usize = 1; // AnyValueWrapper<T> through the erased API (type statically known)
 pub const SRC_TYPED: usize = 2;
+pub const SRC_SIZELESS: usize = 3; // AnyValueSizelessRaw through the unsafe `push_unchecked` / `insert_unchecked` (no size, no type)
 pub const OP_DRAINED: usize = 3; // value source: element yielded by drain of another vector // AnyVecTyped::insert / push
 
 /// post-condition shared by every insert/push harness on vector 0
@@ -56,6 +57,13 @@ fn insert_owned<T: 'static>(src: usize, push: bool, drop: bool, fixed: bool, mk:
         g().ext_src = p as *const u8;
         let val = unsafe { AnyValueRaw::new(NonNull::new_unchecked(p), esz, TypeId::of::<T>()) };
         if push { v.push(val) } else { v.insert(index, val) }
+    } else if src == SRC_SIZELESS {
+        let mut ext = MaybeUninit::<T>::uninit();
+        let p = ext.as_mut_ptr() as *mut u8;
+        g().ext_src_on = true;
+        g().ext_src = p as *const u8;
+        let val = unsafe { AnyValueSizelessRaw::new(NonNull::new_unchecked(p)) };
+        unsafe { if push { v.push_unchecked(val) } else { v.insert_unchecked(index, val) } }
     } else if src == SRC_WRAPPER {
         let val = AnyValueWrapper::new(mk());
         if push { v.push(val) } else { v.insert(index, val) }
